@@ -3,6 +3,7 @@ package compiler
 import (
 	"fmt"
 	"math"
+	"strings"
 
 	"github.com/glyphlang/glyph/pkg/ast"
 )
@@ -122,6 +123,9 @@ func (o *Optimizer) OptimizeStatements(stmts []ast.Statement) []ast.Statement {
 			// Optimize the value expression
 			optimizedValue := o.OptimizeExpression(s.Value)
 
+			// The target gets a new value: facts derived from its old value are stale
+			o.forgetVariable(s.Target)
+
 			// Copy propagation: track variable-to-variable assignments
 			if varExpr, ok := optimizedValue.(*ast.VariableExpr); ok {
 				o.copies[s.Target] = varExpr.Name
@@ -144,6 +148,10 @@ func (o *Optimizer) OptimizeStatements(stmts []ast.Statement) []ast.Statement {
 						} else {
 							// Track this expression
 							o.expressions[key] = s.Target
+							if exprKeyUsesVar(key, s.Target) {
+								// x = x + 1 does not make x equal to x + 1
+								delete(o.expressions, key)
+							}
 						}
 					}
 				}
@@ -167,6 +175,9 @@ func (o *Optimizer) OptimizeStatements(stmts []ast.Statement) []ast.Statement {
 			// Optimize the value expression (same logic as AssignStatement)
 			optimizedValue := o.OptimizeExpression(s.Value)
 
+			// The target gets a new value: facts derived from its old value are stale
+			o.forgetVariable(s.Target)
+
 			// Copy propagation: track variable-to-variable assignments
 			if varExpr, ok := optimizedValue.(*ast.VariableExpr); ok {
 				o.copies[s.Target] = varExpr.Name
@@ -189,6 +200,10 @@ func (o *Optimizer) OptimizeStatements(stmts []ast.Statement) []ast.Statement {
 						} else {
 							// Track this expression
 							o.expressions[key] = s.Target
+							if exprKeyUsesVar(key, s.Target) {
+								// x = x + 1 does not make x equal to x + 1
+								delete(o.expressions, key)
+							}
 						}
 					}
 				}
@@ -212,6 +227,8 @@ func (o *Optimizer) OptimizeStatements(stmts []ast.Statement) []ast.Statement {
 			// Same as *ast.ReassignStatement
 			optimizedValue := o.OptimizeExpression(s.Value)
 
+			o.forgetVariable(s.Target)
+
 			if varExpr, ok := optimizedValue.(*ast.VariableExpr); ok {
 				o.copies[s.Target] = varExpr.Name
 				delete(o.constants, s.Target)
@@ -226,6 +243,9 @@ func (o *Optimizer) OptimizeStatements(stmts []ast.Statement) []ast.Statement {
 							o.copies[s.Target] = existingVar
 						} else {
 							o.expressions[key] = s.Target
+							if exprKeyUsesVar(key, s.Target) {
+								delete(o.expressions, key)
+							}
 						}
 					}
 				}
@@ -285,6 +305,7 @@ func (o *Optimizer) OptimizeStatements(stmts []ast.Statement) []ast.Statement {
 				delete(o.constants, varName)
 				delete(o.copies, varName)
 				delete(o.expressions, varName)
+				o.forgetVariable(varName)
 			}
 
 			// Loop invariant code motion (OptAggressive only)
@@ -334,14 +355,17 @@ func (o *Optimizer) OptimizeStatements(stmts []ast.Statement) []ast.Statement {
 				delete(o.constants, varName)
 				delete(o.copies, varName)
 				delete(o.expressions, varName)
+				o.forgetVariable(varName)
 			}
 			// Also invalidate the loop variables themselves
 			if s.KeyVar != "" {
 				delete(o.constants, s.KeyVar)
 				delete(o.copies, s.KeyVar)
+				o.forgetVariable(s.KeyVar)
 			}
 			delete(o.constants, s.ValueVar)
 			delete(o.copies, s.ValueVar)
+			o.forgetVariable(s.ValueVar)
 			// Add the for statement unchanged (could optimize body in future)
 			result = append(result, s)
 
@@ -352,13 +376,16 @@ func (o *Optimizer) OptimizeStatements(stmts []ast.Statement) []ast.Statement {
 				delete(o.constants, varName)
 				delete(o.copies, varName)
 				delete(o.expressions, varName)
+				o.forgetVariable(varName)
 			}
 			if s.KeyVar != "" {
 				delete(o.constants, s.KeyVar)
 				delete(o.copies, s.KeyVar)
+				o.forgetVariable(s.KeyVar)
 			}
 			delete(o.constants, s.ValueVar)
 			delete(o.copies, s.ValueVar)
+			o.forgetVariable(s.ValueVar)
 			result = append(result, &s)
 
 		case *ast.SwitchStatement:
@@ -370,6 +397,7 @@ func (o *Optimizer) OptimizeStatements(stmts []ast.Statement) []ast.Statement {
 					delete(o.constants, varName)
 					delete(o.copies, varName)
 					delete(o.expressions, varName)
+					o.forgetVariable(varName)
 				}
 			}
 			// Also invalidate variables modified in the default case
@@ -379,6 +407,7 @@ func (o *Optimizer) OptimizeStatements(stmts []ast.Statement) []ast.Statement {
 					delete(o.constants, varName)
 					delete(o.copies, varName)
 					delete(o.expressions, varName)
+					o.forgetVariable(varName)
 				}
 			}
 			result = append(result, s)
@@ -391,6 +420,7 @@ func (o *Optimizer) OptimizeStatements(stmts []ast.Statement) []ast.Statement {
 					delete(o.constants, varName)
 					delete(o.copies, varName)
 					delete(o.expressions, varName)
+					o.forgetVariable(varName)
 				}
 			}
 			if len(s.Default) > 0 {
@@ -399,6 +429,7 @@ func (o *Optimizer) OptimizeStatements(stmts []ast.Statement) []ast.Statement {
 					delete(o.constants, varName)
 					delete(o.copies, varName)
 					delete(o.expressions, varName)
+					o.forgetVariable(varName)
 				}
 			}
 			result = append(result, &s)
@@ -409,6 +440,29 @@ func (o *Optimizer) OptimizeStatements(stmts []ast.Statement) []ast.Statement {
 	}
 
 	return result
+}
+
+// forgetVariable drops every fact that involves the variable: its constant
+// value, the copies it takes part in (as the copy or as the source) and the
+// CSE entries it holds or that were computed from it.
+func (o *Optimizer) forgetVariable(name string) {
+	delete(o.constants, name)
+	delete(o.copies, name)
+	for dst, src := range o.copies {
+		if src == name {
+			delete(o.copies, dst)
+		}
+	}
+	for key, holder := range o.expressions {
+		if holder == name || exprKeyUsesVar(key, name) {
+			delete(o.expressions, key)
+		}
+	}
+}
+
+// exprKeyUsesVar reports whether a CSE key (see exprKey) reads the variable.
+func exprKeyUsesVar(key, name string) bool {
+	return strings.Contains(key, "var:"+name+" ") || strings.Contains(key, "var:"+name+")")
 }
 
 // foldBinaryOp performs constant folding on binary operations
